@@ -158,6 +158,8 @@ class Scheduler:
         self.record = record
         self.trace = []  # (step, thread, op, where) when record
         self.escalations = []  # os.kill / os._exit attempts of in-process workers
+        self.counting = True  # line counting (and line preemption) can be switched on late: counting=False and
+        self.count_from = None  # count_from=<virtual time>: lines are numbered from that instant on
         self.expired = []  # timed waits (not sleeps) that ended by their timeout: (thread, op, timeout, condition true by then)
         self.marks = {}  # free-form named step markers set by scenarios (for non-triviality rules)
         self.timeouts_fired = 0
@@ -276,7 +278,7 @@ class Scheduler:
             focus = _Focus(focus, known_all)
 
         def local(frame, event, arg):
-            if event == "line":
+            if event == "line" and (sched.counting or (sched.count_from is not None and sched.now >= sched.count_from)):
                 sched.lines += 1
                 if sched.lines in sched.preempt_at and not sched.aborting and sched.me() is not None:
                     sched.preempt_fired += 1
@@ -289,7 +291,7 @@ class Scheduler:
             LAST["novel"] = novel  # the unpreempted base run of an enumeration: explore reads which lines were new code
 
         def local_novel(frame, event, arg):
-            if event == "line":
+            if event == "line" and (sched.counting or (sched.count_from is not None and sched.now >= sched.count_from)):
                 novel.append(sched.lines + 1)
             local(frame, event, arg)
             return local_novel
